@@ -16,6 +16,8 @@ import (
 	"strconv"
 	"strings"
 	"sync"
+	"sync/atomic"
+	"time"
 
 	"github.com/redis/rueidis"
 	"github.com/redis/rueidis/internal/cmds"
@@ -136,6 +138,7 @@ type fakeServer struct {
 	loaded map[string]bool
 	log    []logged
 	hits   map[string]int
+	gate   atomic.Pointer[gateT] // parks one tagged call inside Do before its arguments are read
 }
 
 func newFakeServer(clock func() int64) *fakeServer {
@@ -686,7 +689,21 @@ type fakeClient struct {
 
 func (c *fakeClient) B() rueidis.Builder { return cmds.NewBuilder(cmds.NoSlot) }
 
+// Do consumes the command's arguments only when it gets to execute it — like the real
+// pipelining client, whose writer goroutine renders a command some time after Do was entered.
+// A call tagged `park` waits at the gate first; a call tagged with a delay sleeps first.
 func (c *fakeClient) Do(ctx context.Context, cmd rueidis.Completed) rueidis.RedisResult {
+	if t, _ := ctx.Value(ctxTag{}).(*callTag); t != nil {
+		if t.park {
+			if g := c.srv.gate.Load(); g != nil && g.used.CompareAndSwap(false, true) {
+				close(g.parked)
+				<-g.release
+			}
+		}
+		if t.delay > 0 {
+			time.Sleep(t.delay)
+		}
+	}
 	return mock.Result(c.srv.exec(ctx, cmd.Commands()).msg())
 }
 
